@@ -88,10 +88,14 @@ def run_case(case, ctx):
     # --- known finding region: positive per-sample clip lifts samples absent from a channel ---------
     absent = any(len(c["samples"]) != len(ref.all_samples) for c in spec["channels"])
     clip_sample = case["clip_sample"]
-    if clip_sample and absent and not case.get("keep_known"):
-        ctx.excluded("positive clip_sample_data with a sample absent from a channel")
-        clip_sample = 0.0
-        ref.clip_sample = 0.0
+    known_region = False
+    if clip_sample and absent:
+        if case.get("keep_known"):
+            known_region = True  # stored replay of the recorded finding: do not exclude
+        else:
+            ctx.excluded("positive clip_sample_data with a sample absent from a channel")
+            clip_sample = 0.0
+            ref.clip_sample = 0.0
     tl = backends.use(case["backend"])
     try:
         rows = case["rows"]
@@ -159,8 +163,13 @@ def run_case(case, ctx):
                         mag[b] += abs(v) + m
                 for b in range(ref.nbins[c]):
                     tol = 1e-9 * (abs(exp[c][b]) + mag[b]) + 1e-300
-                    okm = ctx.close("main", got_main[r, sl.start + b], exp[c][b], tol,
-                                    f"C01/rate/{case['histosys']}+{case['normsys']}", channel=c, bin=b, row=r)
+                    sig = f"C01/rate/{case['histosys']}+{case['normsys']}"
+                    if known_region and case["clip_bin"] is None:
+                        sig = "C01/clip_sample_positive/absent_sample_lifted"
+                    okm = ctx.close("main", got_main[r, sl.start + b], exp[c][b], tol, sig,
+                                    channel=c, bin=b, row=r)
+                    if known_region:
+                        continue
                     g1, g2 = float(got_full[r, sl.start + b]), float(got_main[r, sl.start + b])
                     if not (g1 == g2 or (g1 != g1 and g2 != g2)):
                         ctx.fail("C01/expected_data_main_part_differs_from_expected_actualdata",
